@@ -429,6 +429,13 @@ class Check(PropertyCheck):
                 nsetup[ev[1]] = ev[4] if ev[2] == 0 else 0
             if ev[0] == "reply":
                 rid, enq = ev[1], ev[2]
+                if last_cmd.get(rid) == "send" and enq == 1:
+                    # the NCP is busy (message limit reached / network busy / no buffers, in the status family of the
+                    # running version): the request backs off and tries again; it may only give up after the fixed number
+                    # of spaced retries, i.e. never in the step that handles a busy answer
+                    if any(e[0] == "done" and e[1] == rid for e in st):
+                        return (f"request {rid}: the NCP answered the send command with a busy status and the call ended at once "
+                                f"instead of retrying after the delay")
                 if last_cmd.get(rid) == "send":
                     if in_lock == rid:
                         in_lock = None          # the send command returned: set-up + send are over
